@@ -235,6 +235,13 @@ func initials(thorough bool) []gen.ListSpec {
 		}
 	})
 	out = append(out, wideStar(true))
+	// a root element named more than once (as after reading several DESCRIBES relationships of one element, or after
+	// merging lists): well-formed, and every entry must go when the node goes
+	out = append(out,
+		gen.ListSpec{Nodes: []string{"a", "b"}, Edges: []gen.EdgeSpec{{From: "a", Type: tc, To: []string{"b"}}}, Roots: []string{"a", "a"}},
+		gen.ListSpec{Nodes: []string{"a", "b", "c"}, Edges: []gen.EdgeSpec{{From: "a", Type: tc, To: []string{"b", "c"}}}, Roots: []string{"a", "b", "a"}},
+		gen.ListSpec{Nodes: []string{"a", "b", "c"}, Edges: []gen.EdgeSpec{{From: "b", Type: td, To: []string{"c"}}}, Roots: []string{"b", "a", "a", "b"}},
+	)
 	// identifiers that coincide under case folding or trimming next to the ones the operations name
 	out = append(out,
 		gen.ListSpec{Nodes: []string{"a", "A", "a "}, Edges: []gen.EdgeSpec{{From: "a", Type: tc, To: []string{"A", "a "}}, {From: "A", Type: td, To: []string{"a"}}}, Roots: []string{"a", "A"}},
